@@ -4,7 +4,7 @@
    field extraction, hash and constants are generated from /repo. *)
 From J1939 Require Import Base CodecGlue Model21.
 From J1939.gen Require Import Codec Tp21Gen CaGen.
-From J1939P Require Import CodecProofs Flat Tp21Seg Tp21Resp Tp21Orig.
+From J1939P Require Import CodecProofs Flat Tp21Seg Tp21Resp Tp21Orig FrameLocal Tp21Bam.
 
 (* T01.1 — segmentation and reassembly are inverse for EVERY payload *)
 Theorem C01_reassembly : forall p, firstn (length p) (segs p (npk (length p))) = p.
@@ -100,3 +100,53 @@ Theorem C01_window_burst : forall sa dest n b (g : nat) x now nw k,
   (s, dts (s_src b) (s_dst b) (s_data b) x (S g) ++ os, r).
 Proof. exact window_burst. Qed.
 Print Assumptions C01_window_burst.
+
+(* T01.7 — concurrency: a transport frame of the pair (sa, dest) touches at most the receive session (sa, dest) and the
+   send session (dest, sa); the sessions of every OTHER pair — data, counters, state, deadlines — are exactly as before,
+   whatever the frame contains.  Together with the role theorems (one pair each) this covers any set of simultaneous
+   transfers on distinct pairs, in both directions, for every interleaving of their frames *)
+Theorem C01_cm_frame_touches_one_pair : forall prio sa dest data now n sa' dest',
+  0 <= sa < 256 -> 0 <= dest < 256 -> 0 <= sa' < 256 -> 0 <= dest' < 256 ->
+  (sa', dest') <> (sa, dest) ->
+  tget (n_rcv (fnode (process_tp_cm prio sa dest data now n))) (tp21_hash sa' dest') = tget (n_rcv n) (tp21_hash sa' dest') /\
+  tget (n_snd (fnode (process_tp_cm prio sa dest data now n))) (tp21_hash dest' sa') = tget (n_snd n) (tp21_hash dest' sa').
+Proof. exact other_pairs_untouched_by_cm. Qed.
+Print Assumptions C01_cm_frame_touches_one_pair.
+Theorem C01_dt_frame_touches_one_pair : forall prio sa dest data now n sa' dest',
+  0 <= sa < 256 -> 0 <= dest < 256 -> 0 <= sa' < 256 -> 0 <= dest' < 256 ->
+  (sa', dest') <> (sa, dest) ->
+  tget (n_rcv (fnode (process_tp_dt prio sa dest data now n))) (tp21_hash sa' dest') = tget (n_rcv n) (tp21_hash sa' dest') /\
+  (forall h, tget (n_snd (fnode (process_tp_dt prio sa dest data now n))) h = tget (n_snd n) h).
+Proof. exact other_pairs_untouched_by_dt. Qed.
+Print Assumptions C01_dt_frame_touches_one_pair.
+
+(* T01.5 — broadcast (BAM), listener: the announcement opens the session; the data packets DT_1..DT_n, arriving at
+   arbitrary instants, cause NO frame and exactly one delivery of p to the matching listeners; session released *)
+Theorem C01_bam_announce_opens : forall prio sa data now n,
+  (8 <= length data)%nat -> tp21_cm_control data = tp21_cm_BAM ->
+  let h := tp21_hash sa addr_GLOBAL in
+  let b := {| r_pgn := tp21_cm_pgn data; r_size := tp21_bam_message_size data; r_num := tp21_bam_num_packages data; r_next := 1;
+              r_maxrec := None; r_data := []; r_deadline := now + tp21_T1; r_src := sa; r_dst := addr_GLOBAL |} in
+  fouts (process_tp_cm prio sa addr_GLOBAL data now n) = [] /\
+  tget (n_rcv (fnode (process_tp_cm prio sa addr_GLOBAL data now n))) h = Some b.
+Proof. exact bam_announce_opens. Qed.
+Print Assumptions C01_bam_announce_opens.
+Theorem C01_bam_listener_delivers : forall prio sa pgn p now n b,
+  (8 < length p)%nat ->
+  tget (n_rcv n) (tp21_hash sa addr_GLOBAL) = Some b -> r_data b = [] -> r_size b = len p -> r_pgn b = pgn ->
+  exists n', feed prio sa addr_GLOBAL p now (npk (length p)) 0 n = (n', deliveries n prio pgn sa addr_GLOBAL p) /\
+             n_rcv n' = tdel (n_rcv n) (tp21_hash sa addr_GLOBAL) /\ same_env n n'.
+Proof. exact bam_listener_delivers. Qed.
+Print Assumptions C01_bam_listener_delivers.
+
+(* T01.5 — broadcast, originator: job passes at or after the successive deadlines emit DT_1 .. DT_n, one per pass, in
+   order, each carrying dt_payload p k (the frames the listener theorem consumes), and release the session after DT_n *)
+Theorem C01_bam_originator_sends_all : forall key (times : list Z) n b,
+  tget (n_snd n) key = Some b -> s_state b = ST_SENDING_BM -> 0 < s_deadline b -> 0 < n_bam_iv n ->
+  0 <= s_next b -> s_next b + Z.of_nat (length times) = s_num b -> (0 < length times)%nat ->
+  late_enough (s_deadline b) (n_bam_iv n) times ->
+  let '(n', os) := bam_run key times n in
+  os = dts_from (s_src b) (s_dst b) (s_data b) (s_next b) (length times) /\
+  n_snd n' = tdel (n_snd n) key.
+Proof. exact bam_originator_sends_all. Qed.
+Print Assumptions C01_bam_originator_sends_all.
